@@ -2,12 +2,14 @@ module verifh
 
 go 1.24.5
 
-require github.com/go-i2p/common v0.0.0
+require (
+	github.com/go-i2p/common v0.0.0
+	github.com/go-i2p/crypto v0.1.4-0.20260218221204-a8834457f3f1
+)
 
 require (
 	filippo.io/edwards25519 v1.1.0 // indirect
 	github.com/cespare/xxhash/v2 v2.3.0 // indirect
-	github.com/go-i2p/crypto v0.1.4-0.20260218221204-a8834457f3f1 // indirect
 	github.com/go-i2p/elgamal v0.0.2 // indirect
 	github.com/go-i2p/logger v0.1.2 // indirect
 	github.com/oklog/ulid/v2 v2.1.1 // indirect
